@@ -1,38 +1,67 @@
 import Mc.Drv.Sync
+import Mc.Spec.SyncOracles
 namespace Mc.Drv
 
-/-- kind "sync": one real sync (processNextWorkItem) against the model -/
-def handleSync (c : J) : Res := Id.run do
-  let cfg := cfgOfJ (c.getD "cfg")
+def caseOfJ (c : J) : SyncCase :=
+  let composite := c.getStr "ctl" == "composite"
   let cache := cacheOfJ (c.getD "cache")
-  let recs := (c.getArr "calls").map Rec.ofJ
+  let key := c.getStr "key"
+  let parent : Option J :=
+    if composite then
+      let (ns, name) := splitKey key
+      cache.parents.find? (fun p => getNamespace p == ns && getName p == name)
+    else
+      let parts := key.splitOn ":"
+      cache.parents.find? (fun p => getAPIVersion p == parts.getD 0 "" && getKind p == parts.getD 1 "" &&
+        getNamespace p == parts.getD 2 "" && getName p == ":".intercalate (parts.drop 3))
   let result := c.getD "result"
-  let (ns, name) := splitKey (c.getStr "key")
+  { composite, cfg := if composite then cfgOfJ (c.getD "cfg") else default,
+    dcfg := if composite then default else dcfgOfJ (c.getD "cfg"),
+    cache, parent, calls := (c.getArr "calls").map Rec.ofJ,
+    outcome := result.getStr "outcome", after := recordedAfter result, cacheIntact := c.getBool "cacheIntact" }
+
+def judge (r : Res) (p : String) (v : Option String) : Res :=
+  match v with
+  | none => pass r p
+  | some clause => fail r p clause
+
+/-- kind "sync": one real sync (processNextWorkItem) against the model, and the per-trace oracles -/
+def handleSync (c : J) : Res := Id.run do
+  let s := caseOfJ c
+  let result := c.getD "result"
   let mut r : Res := { sig := (J.obj [("cfg", c.getD "cfg"), ("cache", c.getD "cache"), ("calls", c.getD "calls")]).render }
-  if c.getStr "ctl" == "composite" then
-    let (fin, st) := replay (syncCompositeFull cfg cache ns name (c.getStr "revName")) { recs := recs.map (·, false) } 600
-    for m in st.mismatches do r := disagree r m
-    match fin with
-    | none => pure ()
-    | some f =>
-      for x in unconsumed st do r := disagree r s!"implementation issued a request the model did not: {x.verb} {x.resource} {x.ns}/{x.name} {x.hook}"
-      if outcomeName f.outcome != result.getStr "outcome" then
-        r := disagree r s!"outcome: model {outcomeName f.outcome} impl {result.getStr "outcome"} {result.getStr "detail"}"
-      if f.after != recordedAfter result then r := disagree r s!"addAfter: model {f.after} impl {recordedAfter result}"
-  else
-    let dc := dcfgOfJ (c.getD "cfg")
-    let parts := (c.getStr "key").splitOn ":"
-    let (fin, st) := replay (syncDecorator dc cache (parts.getD 0 "") (parts.getD 1 "") (parts.getD 2 "") (":".intercalate (parts.drop 3))) { recs := recs.map (·, false) } 400
-    for m in st.mismatches do r := disagree r m
-    match fin with
-    | none => pure ()
-    | some f =>
-      for x in unconsumed st do r := disagree r s!"implementation issued a request the model did not: {x.verb} {x.resource} {x.ns}/{x.name} {x.hook}"
-      if outcomeName f.outcome != result.getStr "outcome" then
-        r := disagree r s!"outcome: model {outcomeName f.outcome} impl {result.getStr "outcome"} {result.getStr "detail"}"
-      if f.after != recordedAfter result then r := disagree r s!"addAfter: model {f.after} impl {recordedAfter result}"
-  for x in recs do
-    if x.isWrite && x.ok then r := tag r x.verb
+  -- correspondence: replay the model against the recorded responses
+  let prog : Prog Final :=
+    if s.composite then
+      let (ns, name) := splitKey (c.getStr "key")
+      syncCompositeFull s.cfg s.cache ns name (c.getStr "revName")
+    else
+      let parts := (c.getStr "key").splitOn ":"
+      syncDecorator s.dcfg s.cache (parts.getD 0 "") (parts.getD 1 "") (parts.getD 2 "") (":".intercalate (parts.drop 3))
+  let (fin, st) := replay prog { recs := s.calls.map (·, false) } 600
+  for m in st.mismatches do r := disagree r m
+  match fin with
+  | none => pure ()
+  | some f =>
+    for x in unconsumed st do r := disagree r s!"implementation issued a request the model did not: {x.verb} {x.resource} {x.ns}/{x.name} {x.hook}"
+    if outcomeName f.outcome != result.getStr "outcome" then
+      r := disagree r s!"outcome: model {outcomeName f.outcome} impl {result.getStr "outcome"} {result.getStr "detail"}"
+    if f.after != recordedAfter result then r := disagree r s!"addAfter: model {f.after} impl {recordedAfter result}"
+  -- oracles on the implementation's own trace
+  r := judge r "C02" (oracleC02 s)
+  r := judge r "C03" (oracleC03 s)
+  r := judge r "C04" (oracleC04 s)
+  r := judge r "C06" (oracleC06 s)
+  r := judge r "C09" (oracleC09 s)
+  r := judge r "C10" (oracleC10 s)
+  r := judge r "C11" (oracleC11 s)
+  r := judge r "C12" (oracleC12 s)
+  r := judge r "C13" (oracleC13 s)
+  r := judge r "C16" (oracleC16 s)
+  r := judge r "C17" (oracleC17 s)
+  for x in s.calls do
+    if x.isWrite && x.ok then r := tag r (x.verb ++ (if s.isParentTarget x then "-parent" else if x.isRevision then "-revision" else "-child"))
+    if x.isWrite && !x.ok then r := tag r ("failed-" ++ x.verb)
     if x.isHook then r := tag r ("hook-" ++ x.hook)
   r := tag r ("outcome-" ++ result.getStr "outcome")
   return r
